@@ -37,7 +37,14 @@ func VerifTagNameConfined() { verifTagFlow(false) }
 // its cache directory.
 func VerifFindingTagDotDot() { verifTagFlow(true) }
 
-func verifTagFlow(finding bool) {
+// VerifDecodedTagConfined: the same flow starting from the decoded tag, for
+// longer names (dot and slash patterns that need more bytes than the escaped
+// form allows within the bound).
+func VerifDecodedTagConfined() { verifTagFlowFrom(false, true) }
+
+func verifTagFlow(finding bool) { verifTagFlowFrom(finding, false) }
+
+func verifTagFlowFrom(finding, decoded bool) {
 	t := httputil.KseLayout()
 	fs, err := store.NewSimpleStore(store.SimpleStoreConfig{
 		UploadDir:     t.Roots[0],
@@ -51,7 +58,12 @@ func verifTagFlow(finding bool) {
 	httputil.KseMust(err)
 	before := t.Outside()
 
-	tag, err := httputil.KseRawParam("tag")
+	var tag string
+	if decoded {
+		tag = httputil.KseDecodedName()
+	} else {
+		tag, err = httputil.KseRawParam("tag")
+	}
 	if err != nil {
 		verif.Reach("rejected-by-parse")
 		return
